@@ -16,6 +16,7 @@ termination of the batch loop `cel_iterv` and of the dispatcher `cel_iter` (`cel
    1e12 distances in watchdogged worker processes; its findings are recorded by input class. -/
 -/
 import MagpyVerif.Lemmas.KernReal
+import MagpyVerif.Lemmas.KernelLiterals
 import MagpyVerif.Lemmas.SegmentBS
 import MagpyVerif.Lemmas.CelAGM
 namespace MagpyVerif.C15
